@@ -103,9 +103,25 @@ def note_violations(n):
             _VIOL.value += n
 
 
+_DEADLINE = mp.get_context("fork").Value("d", 0.0)  # wall-clock time after which no further run is started (0 = none)
+
+
+def set_time_budget(seconds):
+    """Soft budget of a tier: on a slow or busy machine the check explores less instead of running into the hard wall
+    cap (which is a harness error).  Inherited by the forked workers."""
+    import time
+    _DEADLINE.value = time.time() + seconds if seconds else 0.0
+
+
+def past_deadline():
+    import time
+    return _DEADLINE.value > 0 and time.time() > _DEADLINE.value
+
+
 def stop_requested():
-    """Once enough violations are on record the remaining runs add nothing: the check fails anyway."""
-    return _VIOL.value >= STOP_AFTER
+    """Once enough violations are on record the remaining runs add nothing: the check fails anyway.  Also true once
+    the tier's soft time budget is used up."""
+    return _VIOL.value >= STOP_AFTER or past_deadline()
 
 
 # ------------------------------------------------------------------ per-run watchdog
